@@ -17,7 +17,7 @@ one() {
     echo "$d PATCH-DOES-NOT-APPLY (use seedrun.sh, which rebases)"; git -C /repo worktree remove --force $WT; return
   fi
   checks="$prop"
-  case $d in C16-m2|C16-m3) checks="C16 C08 C09";; C20-m2|C20-m4) checks="C20 C03";; C04-m1) checks="C04 C06";; C04-m3) checks="C04 C08";; C11-m4) checks="C11 C08";; C03-m4) checks="C03 C05";; C04-m5) checks="C04 C06";; C11-m5) checks="C11 C20";; C11-m8) checks="C11 C19";; C20-m7) checks="C20 C08";; C08-m7) checks="C08 C09";; C04-m9) checks="C04 C08";; C13-m9|C13-m10) checks="C13 C15";; C12-m9) checks="C12 C15";; C11-m10) checks="C11 C19";; C12-m11|C12-m12) checks="C12 C15";; C13-m11|C13-m12) checks="C13 C15";; C10-m11) checks="C10 C14";; C16-m15) checks="C16 C08";; C12-m15|C12-m16) checks="C12 C15";; C13-m15|C13-m16) checks="C13 C15";; C10-m15) checks="C10 C07";; C01-m15) checks="C01 C12";; C12-m17) checks="C12 C15";; C12-m18) checks="C12 C18";; C13-m17|C13-m18) checks="C13 C15";; C10-m17) checks="C10 C06";; C07-m17) checks="C07 C06";; C08-m17) checks="C08 C09";; C20-m18) checks="C20 C03";; C11-m18) checks="C11 C19";; C12-m20) checks="C12 C18";; C13-m19|C13-m20) checks="C13 C15";; C10-m19) checks="C10 C11";; C10-m20) checks="C10 C06";; C08-m19) checks="C08 C09";; C20-m19) checks="C20 C03";; C03-m20) checks="C03 C20";; C11-m19) checks="C11 C19";; C08-m20) checks="C08 C04";; C05-m19) checks="C05 C10";; C12-m22) checks="C12 C15";; C13-m21|C13-m22) checks="C13 C15";; C08-m22) checks="C08 C11";; C03-m22) checks="C03 C02";; C10-m21) checks="C10 C06";; C07-m21) checks="C07 C06";; C20-m21) checks="C20 C03";; esac
+  case $d in C16-m2|C16-m3) checks="C16 C08 C09";; C20-m2|C20-m4) checks="C20 C03";; C04-m1) checks="C04 C06";; C04-m3) checks="C04 C08";; C11-m4) checks="C11 C08";; C03-m4) checks="C03 C05";; C04-m5) checks="C04 C06";; C11-m5) checks="C11 C20";; C11-m8) checks="C11 C19";; C20-m7) checks="C20 C08";; C08-m7) checks="C08 C09";; C04-m9) checks="C04 C08";; C13-m9|C13-m10) checks="C13 C15";; C12-m9) checks="C12 C15";; C11-m10) checks="C11 C19";; C12-m11|C12-m12) checks="C12 C15";; C13-m11|C13-m12) checks="C13 C15";; C10-m11) checks="C10 C14";; C16-m15) checks="C16 C08";; C12-m15|C12-m16) checks="C12 C15";; C13-m15|C13-m16) checks="C13 C15";; C10-m15) checks="C10 C07";; C01-m15) checks="C01 C12";; C12-m17) checks="C12 C15";; C12-m18) checks="C12 C18";; C13-m17|C13-m18) checks="C13 C15";; C10-m17) checks="C10 C06";; C07-m17) checks="C07 C06";; C08-m17) checks="C08 C09";; C20-m18) checks="C20 C03";; C11-m18) checks="C11 C19";; C12-m20) checks="C12 C18";; C13-m19|C13-m20) checks="C13 C15";; C10-m19) checks="C10 C11";; C10-m20) checks="C10 C06";; C08-m19) checks="C08 C09";; C20-m19) checks="C20 C03";; C03-m20) checks="C03 C20";; C11-m19) checks="C11 C19";; C08-m20) checks="C08 C04";; C05-m19) checks="C05 C10";; C12-m22) checks="C12 C15";; C13-m21|C13-m22) checks="C13 C15";; C08-m22) checks="C08 C11";; C03-m22) checks="C03 C02";; C10-m21) checks="C10 C06";; C07-m21) checks="C07 C06";; C20-m21) checks="C20 C03";; C12-m23) checks="C12 C15";; C12-m24) checks="C12 C18";; C08-m24) checks="C08 C09";; C20-m24) checks="C20 C03";; C10-m24) checks="C10 C14";; esac
   [ -n "$CHECKS" ] && checks="$CHECKS"
   det=""
   for c in $checks; do
